@@ -1,4 +1,6 @@
 import Proofs.C14
+import Proofs.TieCell
+import Proofs.TieImages
 #print axioms PV.Proofs.C14.toCart_linear
 #print axioms PV.Proofs.C14.toCart_add
 #print axioms PV.Proofs.C14.position_affine
@@ -15,3 +17,14 @@ import Proofs.C14
 #print axioms PV.Proofs.C14.area_eq_cross
 #print axioms PV.Proofs.C14.area_eq_abs_cross
 #print axioms PV.Proofs.C14.corners_spec
+#print axioms PV.Proofs.Tie.declared_translated_cell
+#print axioms PV.Proofs.Tie.cell_a_tie
+#print axioms PV.Proofs.Tie.cell_b_tie
+#print axioms PV.Proofs.Tie.cell_angle_tie
+#print axioms PV.Proofs.Tie.cell_area_tie
+#print axioms PV.Proofs.Tie.cell_to_cartesian_tie
+#print axioms PV.Proofs.Tie.declared_translated_images
+#print axioms PV.Proofs.Tie.to_cartesian_point_tie
+#print axioms PV.Proofs.Tie.to_cartesian_isometry_tie
+#print axioms PV.Proofs.Tie.to_cartesian_translate_tie
+#print axioms PV.Proofs.Tie.periodic_images_tie
